@@ -21,3 +21,4 @@ def check(ctx):
     ctx.guard(c03.r031_wiring, ctx, "R11.2", only_weights=True)
     ctx.rule("R11.3", "scalar results for single weighted rows (shared with C14 R14.4)")
     ctx.guard(c14.r144_scalar, ctx, rule="R11.3")
+    ctx.guard(c14.r146_pure, ctx, rule="R11.4")
